@@ -268,7 +268,23 @@ def run(case, ctx):
                                                             want[k]))
         check(all(isinstance(s, consts.AppState) for s in ci.core_states),
               "chip-info-state-type", repr(ci.core_states[:3]))
-    # helper views of the description
+    # helper views of the description: each is an iterator the application
+    # may give up early or run twice at the same time
+    for name in ("chips", "links", "cores", "dead_chips", "dead_links",
+                 "ethernet_connected_chips"):
+        it = getattr(si, name)()
+        first = next(iter(it), None)
+        del it
+        a = list(getattr(si, name)())
+        if first is not None and len(a) <= 40:
+            pairs = sum(1 for _ in getattr(si, name)()
+                        for _ in getattr(si, name)())
+            ctx.hit("description_iterator_nested")
+            check(pairs == len(a) ** 2 and a[0] == first,
+                  "description-iterator",
+                  "%s(): %d items, a nested pair of walks gives %d pairs, "
+                  "an abandoned walk began with %r, a full one with %r" %
+                  (name, len(a), pairs, first, a[0]))
     check(set(si.dead_chips()) == {(x, y) for x in range(ew)
                                    for y in range(eh)} - responding,
           "dead-chips", repr(sorted(si.dead_chips())[:6]))
